@@ -5,7 +5,6 @@ From V.model Require Import Base RelLex RelParse RelAcc RelGrammar.
 From V.model Require Import RelEdit RelEditSpec RelEditTree RelLive.
 From V.proofs Require Import BaseP RelLexP RelEditP RelEditStP RelEditTreeP RelGrammarParseP RelGrammarAccP.
 From V.proofs Require Import RelLiveP RelLiveStepP RelLiveWfP.
-Set Default Timeout 60.
 
 (* ------------------------------------------------------------------ white space slots *)
 Lemma wtrees_wsl_of s : wtrees (wsl_of s) = ws_elems s.
